@@ -19,6 +19,7 @@ RULE = ('operator in {map, starmap, filter, scan} whose user function raises on 
         'absent (ignore, router) / replaced in place by the mapped value (error.map); the dead-letter observable receives the '
         'exceptions in source order and completes once with the stream; without handler the subscriber gets the outputs before '
         'the first failure and then on_error with that exception. Non-trivial = at least one failing and one passing item.')
+DEEP_PROBES = ('four exception classes; two error routers in one pipeline, run twice on the same pipeline object; the failing operator in front of group_by / roll / split / time_split')
 ASSUMPTIONS = ['handlers are placed directly behind the failing operator (as stated)', 'total input length up to 5 (6 in thorough)']
 LEVEL_TEXT = ('Bounded-exhaustive model checking over the fault dimension: every subset of failing positions of every interleaved '
               'keyed input, for each operator/handler pair, against a direct model of "as if the item were absent". A routing '
